@@ -44,6 +44,7 @@ type TUInput struct {
 	Dirname   string `json:"dirname,omitempty"`
 	WrapPath  string `json:"wrappath,omitempty"`
 	Exclusive bool   `json:"exclusive,omitempty"`
+	Count     int    `json:"count,omitempty"` // children the custom generator hands out (gen dir-wide)
 }
 
 // deterministic random source
@@ -206,6 +207,24 @@ func runTUInput(rep *Report, in TUInput, cf *CaseFile) {
 							return nil, nil
 						}
 						f, err := testutil.UnixFSFile(*ls, 100+n, testutil.WithRandReader(rr))
+						if err != nil {
+							return nil, err
+						}
+						f.Path = name
+						return &f, nil
+					}))
+			case "dir-wide":
+				// ONE directory with hundreds of direct children (a custom child generator that keeps going): most of the
+				// name generator's word list gets used up, so almost every draw is a name already taken
+				pathDiscipline = true
+				n := 0
+				de, err = testutil.UnixFSDirectory(*ls, in.Size, testutil.WithRandReader(rr), testutil.WithDirname(in.Dirname), testutil.WithShardBitwidth(in.Bitwidth),
+					testutil.WithChildGenerator(func(name string) (*testutil.DirEntry, error) {
+						n++
+						if n > in.Count {
+							return nil, nil
+						}
+						f, err := testutil.UnixFSFile(*ls, 1+n%3, testutil.WithRandReader(rr))
 						if err != nil {
 							return nil, err
 						}
@@ -401,6 +420,27 @@ func scnTestutil(rep *Report, rng *Rng, tier string, outdir string) {
 		add(TUInput{Gen: "gendir", Seed: seed, Size: 65536, Sharded: j%5 == 4})
 		add(TUInput{Gen: "gendirfrom", Seed: seed, Size: 65536, Dirname: "/x/y", Sharded: false})
 	}
+	// one directory using up most of the word list
+	for j, cnt := range []int{300, 520, 600} {
+		seed := rng.Next() % 100000
+		add(TUInput{Gen: "dir-wide", Seed: seed, Size: 1 << 20, Count: cnt, Dirname: "/w", Bitwidth: []int{0, 4, 0}[j]})
+	}
+	// a bulk sweep of the default directory generator (description vs read-back and sibling-name discipline only, no model cases):
+	// collisions between generated names are events of a few per thousand tapes
+	nSweep := 1500
+	if tier == "thorough" {
+		nSweep = 12000
+	}
+	for j := 0; j < nSweep; j++ {
+		seed := rng.Next() % 10000000
+		in := TUInput{Gen: "dir", Seed: seed, Size: []int{32768, 32768, 65536, 262144}[j%4], Bitwidth: []int{0, 0, 0, 4}[(j/4)%4]}
+		if j%4 == 3 && j%16 != 3 {
+			in.Size = 32768
+		}
+		runTUInput(rep, in, nil)
+		rep.Dist("C19", "gen=dir(sweep)")
+	}
+	rep.P("C19").Evaluations += nSweep
 	// directory names with dots in them (an extension-stripping name comparison must not look at the parent's name), and
 	// wrap paths with empty segments (no entry may end up with an empty name)
 	nDot := 60
